@@ -734,7 +734,52 @@ def rule_noint(ctx):
     return res.finish(3)
 
 
+def rule_dispatch(ctx):
+    """CommonNearestNeighbour selects an index kind by name; every arm of its dispatcher builds the kind it is named
+    after.  (All kinds answer alike on ordinary data - that is the property - so a copy-pasted arm only shows where the
+    kinds legitimately differ: layout requirements, cost.)"""
+    res = RuleResult("R-C07-dispatch", "every arm of CommonNearestNeighbour's dispatcher builds the index kind of its own variant")
+    F = ctx.facts()
+    fns = [f for f in F.find_fns(name="from_batch_with_leaf_size", krate="linfa_nn") if (f["d"].get("self_adt") or "").endswith("CommonNearestNeighbour")]
+    if not fns:
+        res.missing_anchor("<CommonNearestNeighbour as NearestNeighbour>::from_batch_with_leaf_size")
+    for fn in fns:
+        c = fn["crate"]
+        key = fn_key(fn)
+        n = 0
+        for y in walk(fn["body"]):
+            if y.get("k") != "Match" or y.get("src", "Normal") != "Normal":
+                continue
+            for a in y["arms"]:
+                pat = a["pat"]
+                while pat.get("k") == "Ref":
+                    pat = pat.get("pat")
+                vname = (c.dfn(pat.get("def")) or {}).get("name") if pat.get("k") in ("Path", "TupleStruct", "Struct") else None
+                if not vname:
+                    continue
+                built = set()
+                for z in walk(a["body"]):
+                    if z.get("k") == "MethodCall" and z["name"] in ("from_batch_with_leaf_size", "from_batch"):
+                        t = c.ty(peel_refs(z["recv"]).get("t")) or ""
+                        built.add(t.split("::")[-1].split("<")[0])
+                    if z.get("k") == "Call" and strip(z["f"]).get("k") == "Path":
+                        d = c.dfn(strip(z["f"]).get("def")) or {}
+                        if d.get("name") == "new" and (d.get("self_adt") or "").endswith("Index"):
+                            built.add(d["self_adt"].split("::")[-1].replace("Index", "").replace("Search", "Search"))
+                if not built:
+                    continue
+                n += 1
+                res.instance("%s : arm %s builds %s" % (key, vname, sorted(built)))
+                if any(b == vname or b.startswith(vname) for b in built):
+                    res.ok()
+                else:
+                    res.violate("%s : arm-builds-other-kind:%s" % (key, vname), "the `%s` arm builds a `%s` index: selecting one kind silently gives another" % (vname, sorted(built)[0]), fn_loc(fn, a["body"].get("ln")))
+        if n < 3:
+            res.missing_anchor("arms of the CommonNearestNeighbour dispatcher (found %d)" % n)
+    return res.finish(3)
+
+
 def rules(tier):
     from . import precision
     return [rule_unit, rule_sib, rule_edge, rule_degree, rule_memorder, rule_cover, rule_direct,
-            precision.make_rule("R-C07-precision", lambda f: f["d"]["krate"] == "linfa_nn", 30, "linfa-nn"), rule_noint]
+            precision.make_rule("R-C07-precision", lambda f: f["d"]["krate"] == "linfa_nn", 30, "linfa-nn"), rule_noint, rule_dispatch]
